@@ -740,8 +740,11 @@ impl Formatter<'_> {
                             });
                         let broken = closes_on_own_line.then(|| with_break_before_close(word));
                         let broken = broken.as_ref().and_then(Option::as_ref);
+                        let output_line = self.output.line;
                         self.format_word(broken.unwrap_or(word), depth);
-                        if closes_on_own_line {
+                        // A word whose only line break was dropped
+                        // is not multiline when formatted again
+                        if closes_on_own_line && self.output.line != output_line {
                             for (end, empty) in [(')', "()"), (']', "[]"), ('}', "{}")] {
                                 if self.output.ends_with(end) && !self.output.ends_with(empty) {
                                     self.output.pop();
@@ -1039,8 +1042,10 @@ impl Formatter<'_> {
         for (i, word) in words.iter().enumerate() {
             let closes_on_own_line = word_is_multiline(&word.value) && i < words.len() - 1;
             let broken = closes_on_own_line.then(|| with_break_before_close(word));
+            let output_line = self.output.line;
             self.format_word(broken.as_ref().and_then(Option::as_ref).unwrap_or(word), depth);
-            if closes_on_own_line {
+            // A word whose only line break was dropped is not multiline when formatted again
+            if closes_on_own_line && self.output.line != output_line {
                 for (end, empty) in [(')', "()"), (']', "[]"), ('}', "{}")] {
                     if self.output.ends_with(end) && !self.output.ends_with(empty) {
                         self.output.pop();
@@ -1478,6 +1483,16 @@ impl Formatter<'_> {
         // A leading newline that is not kept leaves the first item on the opening line,
         // which must then be laid out like it will be when formatted again
         let keeps_leading_newline = has_leading_newline && allow_leading_newline;
+        // A lone item left on the opening line is all there is when formatted again
+        if has_leading_newline
+            && !keeps_leading_newline
+            && items.len() == 1
+            && !prevent_compact
+            && !item_is_multiline(&items[0])
+        {
+            self.format_item(&items[0], 0, depth);
+            return;
+        }
         if allow_compact && !keeps_leading_newline {
             depth_indent = depth_indent.max(start_line_pos);
         }
